@@ -74,7 +74,7 @@ def run_k_group(scratch: Scratch, cfg: str, hs: list) -> tuple[list, str]:
 
 # ----------------------------------------------------------------------------------------------------
 def write_replay(pid: str, ob: Obligation, extra: dict) -> Path:
-    REPLAYS.mkdir(exist_ok=True)
+    REPLAYS.mkdir(parents=True, exist_ok=True)
     safe = re.sub(r"[^A-Za-z0-9_.-]+", "_", ob.name)
     p = REPLAYS / f"{pid}-{safe}.json"
     data = {
@@ -208,7 +208,7 @@ def decide(pid: str, tier: str) -> int:
 
 # ----------------------------------------------------------------------------------------------------
 def write_evidence(pid, tier, seed, prop, obligations, injected, assumptions_scan, wall, nviol, tool_errors, listed):
-    EVID.mkdir(exist_ok=True)
+    EVID.mkdir(parents=True, exist_ok=True)
     n = len(obligations)
     disc = sum(o.status == "discharged" for o in obligations)
     proofs = [o for o in obligations if o.kind == "proof"]
